@@ -13,7 +13,7 @@ from __future__ import annotations
 
 import time
 
-from .. import core, timeref, vt
+from .. import core, timed_ilv, timeref, vt
 from ..timeref import src_err
 
 PROPERTY = "C16"
@@ -21,7 +21,7 @@ LEVEL = "exploration"
 META = {
     "engine": "vtx",
     "technique": "bounded-exhaustive enumeration of (rate-limiting operator instance, gap-re-timed timeline) on virtual time against "
-    "nondeterministic reference simulators (closure over same-instant orders)",
+    "nondeterministic reference simulators (closure over same-instant orders); plus stateless exhaustive exploration of thread interleavings (bounded preemptions) of the operator on a real-time scheduler with the source on its own thread, timer and source notification due in the same instant",
     "text": "debounce/throttle_with_timeout, throttle_first, throttle_with_mapper (per-element throttle observables incl. synchronously empty, "
     "emitting, completing, never) and sample (period and sampler observable) are executed on the real code for every timeline of <=N elements "
     "with gaps <,=,> the due time, bursts and completion/error with a pending element; every observed (instant, notification) list must be a "
@@ -393,12 +393,15 @@ def run(ctx: core.Ctx):
         "sample completes at the first tick at/after the source's completion or in the instant of the source's completion; "
         "completion of a sampler observable may or may not count as a tick",
     ]
+    timed_ilv.run_part(ctx, "C16")  # E3: real-time scheduler, source on its own thread
     part = ctx.sharded(shard)
     ctx.cov["operators_covered"] = sorted(k[3:] for k in part.counters if k.startswith("op:"))
     ctx.cov["instances"] = sum(1 for _ in instances(ctx.tier, ctx.seed))
 
 
 def replay(case):
+    if isinstance(case, dict) and str(case.get("harness", "")).startswith("timed-threads|"):
+        return timed_ilv.replay("C16", case)
     if case.get("mode") == "reentry":
         probs, got = judge_reentry(case["name"])
         print("re-entrancy case", case["name"], "delivered", got)
